@@ -242,6 +242,11 @@ func exercise(c c10Case, res *c10Result, report func(kind, call, detail string))
 		default:
 			bound += time.Duration(curRunes+2) * 300 * time.Millisecond
 		}
+		if raceEnabled {
+			// the race build runs the decoding loops tens of times slower; its job is checkptr and
+			// the race detector, the timing verdicts belong to the plain build of the same cases
+			bound *= 20
+		}
 		if d := time.Since(t); d > bound {
 			report("slow-match", call, fmt.Sprintf("a call with MatchTimeout=100ms on %d runes took %v", curRunes, d))
 		}
